@@ -134,6 +134,8 @@ S("C16", "abort discard delivers the frame", "R2", (H, '                "Abort s
 S("C16", "P1 guard trip keeps the collected lines", "R3", (D, "                    self._raw_data.clear()\n                    self._is_int_hunt_mode = True\n                    self._buffer.clear()", "                    self._is_int_hunt_mode = True\n                    self._buffer.clear()"))
 S("C16", "P1 guard trip stays in collect mode", "R3", (D, "                    self._raw_data.clear()\n                    self._is_int_hunt_mode = True\n                    self._buffer.clear()", "                    self._raw_data.clear()\n                    self._buffer.clear()"))
 S("C16", "P1 end line does not return to hunt mode", "R3", (D, "                    self._raw_data.clear()\n                    self._is_int_hunt_mode = True\n\n", "                    self._raw_data.clear()\n\n"))
+S("C16", "maximum frame length raised to 12 bits", "R2", (H, "MAX_FRAME_LENGTH: int = 0b11111111111", "MAX_FRAME_LENGTH: int = 0xFFF"))
+N("C16", "maximum frame length spelled in decimal", (H, "MAX_FRAME_LENGTH: int = 0b11111111111", "MAX_FRAME_LENGTH: int = 2047"))
 N("C16", "reset of the pending flag moved to hunt-mode entry and frame start", (H, "    def _goto_hunt_mode(self) -> None:\n        self._frame = None\n", "    def _goto_hunt_mode(self) -> None:\n        self._frame = None\n        self._unescape_next = False\n"))
 
 S("C19", "pinned defect: no trim on exit of HdlcFrameReader.read", "R1", (H, "        # release consumed bytes\n        self._buffer.trim_buffer_to_current_position()\n", ""))
@@ -198,6 +200,8 @@ S("C17", "close() touches the connection before setting the event", "R6", (MC, "
                                                                            "        if self._connection:\n            _LOGGER.info(\"Close connection and abort connect loop\")\n            transport, _ = self._connection\n            transport.close()\n            self._connection = None\n        self._is_closing.set()"))
 S("C17", "close() does not close the transport", "R6", (MC, "            transport, _ = self._connection\n            transport.close()\n            self._connection = None\n\n    async def connect_loop", "            self._connection = None\n\n    async def connect_loop"))
 S("C17", "no wait on the live connection", "R5", (MC, "                await wait(\n                    (done_task, closing_task2),\n                    return_when=FIRST_COMPLETED,\n                )\n", ""))
+S("C17", "connected phase entered without re-reading the connection field", "R4", (MC, "            if self._connection:\n                _, protocol = self._connection\n                done_task", "            if connect_task.done() and not connect_task.cancelled():\n                _, protocol = self._connection\n                done_task"))
+N("C17", "connection field compared with None", (MC, "            if self._connection:\n                _, protocol = self._connection\n                done_task", "            if self._connection is not None:\n                _, protocol = self._connection\n                done_task"))
 N("C17", "inline cancellation instead of the helper", (MC, "            await self._cancel_tasks(connect_task, closing_task)\n", "            for task in (connect_task, closing_task):\n                if not task.done():\n                    task.cancel()\n            await wait((connect_task, closing_task))\n"))
 N("C17", "closing test written positively", (MC, "        if not self._is_closing.is_set():\n            try:\n                _LOGGER.debug(\"Try to connect\")", "        if self._is_closing.is_set():\n            return\n        if not self._is_closing.is_set():\n            try:\n                _LOGGER.debug(\"Try to connect\")"))
 
@@ -249,6 +253,7 @@ S("C04", "checksum absent when shorter than 5 characters", "R4", (D, "        if
 S("C04", "payload includes the identification line", "R6", (D, "return bytes(self._readout[self._data_pos : self._end_pos])", "return bytes(self._readout[: self._end_pos])"))
 S("C04", "ASCII data characters rejected", "R3", (D, "if char > 0x80 or char == b\"!\":", "if char > 0x60 or char == b\"!\":"))
 S("C04", "checksum compared as unpadded text", "R3", (D, "            if self._calculated_crc != expected_checksum:", "            if f\"{self._calculated_crc:X}\" != self.end_line[1:].strip().upper():"))
+S("C04", "readouts with an empty data block refused", "R3", (D, "        try:\n            expected_checksum = self.expected_checksum\n        except ValueError:", "        if self._data_pos >= self._end_pos:\n            return False\n        try:\n            expected_checksum = self.expected_checksum\n        except ValueError:"))
 N("C04", "presence test inverted branches", (D, "        if expected_checksum is not None:\n            if self._calculated_crc != expected_checksum:", "        if expected_checksum is None:\n            pass\n        else:\n            if expected_checksum != self._calculated_crc:"))
 N("C04", "CRC conditional xor as expression", (D, "                if crc & 0x01:\n                    crc >>= 1\n                    crc ^= 0xA001  # CRC16 polynomial x16 + x15 + x2 +1\n                else:\n                    crc >>= 1", "                crc = (crc >> 1) ^ 0xA001 if crc & 1 else crc >> 1"))
 N("C04", "digit class written [0-9]", (D, r"(?P<BAUDID>\d)", r"(?P<BAUDID>[0-9])"))
@@ -323,6 +328,8 @@ S("C09", "list version stored under meter_id", "R5", (KM, "            element_n
 S("C09", "pinned defect: unknown OBIS raises KeyError", "R5", (KM, "            if obis_group_cdr in obis_map.obis_name_map:\n                element_name = obis_map.obis_name_map[obis_group_cdr]\n            else:\n                element_name = obis_group_cdr\n", "            element_name = obis_map.obis_name_map[obis_group_cdr]\n"))
 N("C09", "scaling by rounding idiom for negatives", (KM, "                        else measure.value / (10**-scale)\n", "                        else round(measure.value * (10**scale), -scale)\n"))
 N("C09", "CT test with explicit parentheses order", (KM, "    field_scaling = _field_scaling_ct_meter if is_ct_meter else _field_scaling_standard", "    field_scaling = _field_scaling_standard if not is_ct_meter else _field_scaling_ct_meter"))
+S("C09", "CT registers kept in a module-level generator", "R1", (KM, "    field_scaling = _field_scaling_ct_meter if is_ct_meter else _field_scaling_standard", "    field_scaling = _field_scaling_ct_meter if is_ct_meter and all(k in _CT_KEYS for k in _field_scaling_ct_meter) else _field_scaling_standard"), (KM, "def _normalize_parsed_items(", "_CT_KEYS = (k for k in _field_scaling_ct_meter)\n\n\ndef _normalize_parsed_items("))
+N("C09", "CT registers kept in a module-level tuple", (KM, "    field_scaling = _field_scaling_ct_meter if is_ct_meter else _field_scaling_standard", "    field_scaling = _field_scaling_ct_meter if is_ct_meter and all(k in _CT_KEYS for k in _field_scaling_ct_meter) else _field_scaling_standard"), (KM, "def _normalize_parsed_items(", "_CT_KEYS = tuple(k for k in _field_scaling_ct_meter)\n\n\ndef _normalize_parsed_items("))
 
 # ------------------------------------------------------------------------------------------------ C15 (the repaired defects re-seeded, plus others)
 S("C15", "pinned defect: unchecked find(')')", "R2", (D, "                if value_end_pos == -1:\n                    raise ValueError(\"Data set value is missing end parenthesis.\")\n", ""))
